@@ -24,7 +24,77 @@ def main():
             os.kill(os.getpid(), signal.SIGKILL)
         os.write(fd, b"w\n" if is_event_write(stmt) else b"s\n")
 
+
     hr.on_stmt = on_stmt
+    if mode == "interrupt":
+        # Ctrl-C / a signal handler that raises: KeyboardInterrupt surfaces right after the k-th call that sends SQL to the
+        # database has returned, i.e. BETWEEN two statements of an operation, and the interpreter then exits the orderly way
+        # (atexit hooks and all) without the program shutting the store down. (Raised from Python-level wrappers around the
+        # connection: an exception inside sqlite3's own trace callback would be swallowed.)
+        calls = [0]
+
+        def after_call():
+            calls[0] += 1
+            if calls[0] == k:
+                raise KeyboardInterrupt("injected between two statements")
+
+        if a["backend"] == "sqlite":
+            real = hr.storage.conn
+
+            class ConnProxy:
+                def __getattr__(self, name):
+                    return getattr(real, name)
+
+                def execute(self, *args, **kw):
+                    r = real.execute(*args, **kw)
+                    after_call()
+                    return r
+
+                def executemany(self, *args, **kw):
+                    r = real.executemany(*args, **kw)
+                    after_call()
+                    return r
+
+                def cursor(self, *args, **kw):
+                    return CursorProxy(real.cursor(*args, **kw))
+
+                def __enter__(self):
+                    return real.__enter__()
+
+                def __exit__(self, *exc):
+                    return real.__exit__(*exc)
+
+            class CursorProxy:
+                def __init__(self, cur):
+                    self._cur = cur
+
+                def __getattr__(self, name):
+                    return getattr(self._cur, name)
+
+                def __iter__(self):
+                    return iter(self._cur)
+
+                def execute(self, *args, **kw):
+                    r = self._cur.execute(*args, **kw)
+                    after_call()
+                    return self if r is self._cur else r
+
+                def executemany(self, *args, **kw):
+                    r = self._cur.executemany(*args, **kw)
+                    after_call()
+                    return self if r is self._cur else r
+
+            hr.storage.conn = ConnProxy()
+        else:
+            db = hr.storage.db
+            orig = db.execute_sql
+
+            def execute_sql(*args, **kw):
+                r = orig(*args, **kw)
+                after_call()
+                return r
+
+            db.execute_sql = execute_sql
     os.write(fd, b"start\n")
     for j, op in enumerate(a["ops"]):
         os.write(fd, b"c %d\n" % j)
